@@ -30,8 +30,13 @@ def run_lemma(src, reg, name, build, inline=VM_INLINE, opts=None):
     out = {'name': name, 'obligations': [], 'paths': 0, 'infeasible': 0, 'undecided': None, 'error': None}
     todo = [[]]
     timeout_ms = opts.get('timeout_ms', 30000)
+    budget_s = opts.get('budget_s', 900)
     try:
         while todo:
+            if any(o['status'] == 'failed' for o in out['obligations']):
+                break          # a refuted obligation decides the lemma: no need to explore further
+            if time.time() - t0 > budget_s:
+                raise Unsupported(f'lemma exceeded its budget of {budget_s} s after {out["paths"]} paths')
             prefix = todo.pop()
             ctx = Ctx(prefix, axioms=(), timeout_ms=opts.get('branch_ms', 2000), fname=name)
             ip = Interp(ctx, src, reg)
